@@ -13,6 +13,8 @@ CHECKS = {
          "generated-input search against a closed-form oracle that decides enclosure and tightness at once; one open known finding (ellipsoid_aabb)"),
  "C06": ("model-based testing: Hypothesis-generated URDF robots (grammar) + extra colliders, op lists of joint moves / re-posed frames / queries; brute-force AABB overlap, reference-shape poses, all-pairs reference GJK for self-collision (clear cases only)",
          "generated histories against brute-force and reference oracles after every step; held on everything explored"),
+ "C19": ("property-based testing (Hypothesis) with a harness-owned clock: support-evaluation counters shadowed on collider instances (budget 1000), and interpreted-mode runs under a sys.monitoring LINE|JUMP|BRANCH event budget; finiteness and exception contract",
+         "bounded form of termination decided deterministically (no wall clock); generated extreme / degenerate scenes; two open known findings"),
  "C07": ("property-based testing (Hypothesis): overlapping scenes, gjk -> epa protocol, vs exact qhull penetration depth (polytope pairs) and certified bounds (smooth pairs); both simplex windings",
          "generated-input search with an exact oracle for polytopes; one open known finding (GJK hands over an incomplete simplex)"),
  "C08": ("property-based testing (Hypothesis): overlapping scenes, mpr_penetration vs exact qhull penetration depth (polytopes) / ball-witness bounds, translation test, contact membership",
